@@ -3,22 +3,33 @@
 
   The sweep is `Op.sweep now fault` = one firing of `expire()` (server_tap.py); its exact effect on
   the database is `Chan.sweepP (fun _ => true) s.listened now (now - expirationTicks)`
-  (Inv/SweepSys.lean: `Sys.step_sweep_spec`).  All theorems are for EVERY state that satisfies the
-  invariant (`g.GInv`, of which only `cinv`, `conn`, `synced` = `Sys.SwInv` are used), any `now`.
+  (Inv/SweepSys.lean: `Sys.step_sweep_spec`; one `prune`: `Sys.prune_sweepP`).  All theorems are for
+  EVERY state that satisfies the invariant (`g.GInv`, of which the sweep theorems use only `cinv`,
+  `conn`, `synced` = `Sys.SwInv`), any `now`, no bounds.
 
   * `C12_sweep_preserves`      a row with `now - updated < expirationTicks` or with a subscriber stays,
                                re-stamped iff subscribed; its whole channel is unchanged;
-  * `C12_sweep_only_old`       what a sweep deletes belongs to an old, unsubscribed mailbox row; nothing
-                               is created or altered;
+  * `C12_sweep_only_old`       what a sweep deletes belongs to an old, unsubscribed mailbox row of the same
+                               app; nothing is created or altered; `C12_prune_other_apps`: one `prune`
+                               touches no row of another app;
   * `C12_connected_forever`    any sequence of sweeps keeps a subscribed mailbox (and the subscription);
+    `C12_connected_step`, `C12_connected_mixed`, `C12_connected_close_other`: the same with arbitrary
+                               other traffic in between (everything except the subscriber's drop, a
+                               `close`, a restart, a crash); a `close` on another connection either
+                               leaves it intact or deleted the mailbox;
   * `C12_survives_sweeps`, `C12_grace`   firings before `updated + expirationTicks` are harmless; an
                                absence of `expirationTicks - periodTicks` after a disconnect is safe;
   * `C12_activity_stamps_*`    a successful claim / allocate / open / add at time `t` leaves the
-                               mailbox row with `updated = t`.
+                               mailbox row with `updated = t`;
+  * `C12_updated_mono`, `C12_updated_lower_bound`, `C12_activity_survives`   no operation (crashes
+                               included) ever lowers `updated` of a mailbox id; hence no sweep within
+                               the expiration time after the last activity removes the channel,
+                               whatever happens in between.
 -/
 import Wormhole.Inv.SweepGInv
 import Wormhole.Inv.SweepStamp
 import Wormhole.Inv.SweepKeep
+import Wormhole.Inv.SweepMono
 import Wormhole.Inv.WFDec
 
 namespace Wormhole
@@ -240,6 +251,27 @@ theorem C12_sweep_only_old {g : GSys} (hI : g.GInv) (now : Time) :
       m' = if g.sys.listened m.app m.id = true then { m with updated := now } else m) ∧
     (g.step (.sweep now false)).sys.db.nextNp = g.sys.db.nextNp :=
   Sys.sweep_only_old hI.cinv now
+
+
+/-- **C12_prune_other_apps.**  One `AppNamespace.prune(now, old)` of app `app` (with `old < now`, as in
+    `expire()`), from a state whose database satisfies the commit-point invariant: no exception, and
+    the rows of every OTHER app are untouched in all five tables — mailboxes, nameplates, messages
+    (whose DELETE is keyed by mailbox id only: this needs the global uniqueness of mailbox ids), mailbox
+    sides and nameplate sides. -/
+theorem C12_prune_other_apps {s s1 : Sys} {app : String} {now old : Time} {b : Bool} (h : s.db.CInv)
+    (hlt : old < now) (hp : s.prune app now old = (s1, b)) {a : String} (ha : a ≠ app) :
+    b = true ∧
+    s1.db.mailboxesOfApp a = s.db.mailboxesOfApp a ∧
+    s1.db.nameplatesOfApp a = s.db.nameplatesOfApp a ∧
+    s1.db.messages.filter (fun r => r.app = a) = s.db.messages.filter (fun r => r.app = a) ∧
+    (∀ m ∈ s.db.mailboxes, m.app = a → s1.db.mbSidesOf m.id = s.db.mbSidesOf m.id) ∧
+    (∀ n ∈ s.db.nameplates, n.app = a → s1.db.npSidesOf n.id = s.db.npSidesOf n.id) ∧
+    s1.conns = s.conns := by
+  obtain ⟨hb, hd, hf, _, _⟩ := Sys.prune_sweepP h hlt hp
+  rw [hd]
+  obtain ⟨k1, k2, k3, k4, k5⟩ := Chan.sweepP_other_app (d := s.db) (A := fun x => x == app) (L := s.listened)
+    (now := now) (old := old) h.toPInv (a := a) (by simpa using ha)
+  exact ⟨hb, k1, k2, k3, k4, k5, hf.conns⟩
 
 /-! ## C12_connected_forever -/
 
@@ -634,6 +666,78 @@ theorem C12_recent_activity_survives {g : GSys} (hI : g.GInv) {app mb : String} 
   · exact ⟨_, h1 hs, e1, e2⟩
   · exact ⟨r, h2 hs, e1, e2⟩
 
+
+/-! ## `updated` never goes back: last activity ⇒ survival, across arbitrary histories -/
+
+theorem lower_bound_arith {now t u : Int} (h1 : now - t < expirationTicks) (h2 : t ≤ u) :
+    now - u < expirationTicks := by omega
+
+/-- **C12_updated_mono.**  One step of ANY well-formed operation (crashes included) from a state
+    satisfying the invariant: every mailbox row afterwards is a row from before, unchanged, or is
+    stamped with the operation's time, which is not before the clock; hence for every mailbox id the
+    value of `updated` never decreases. -/
+theorem C12_updated_mono {g : GSys} (hI : g.GInv) {op : Op} (hw : g.WFOp op) :
+    (∀ r' ∈ (g.step op).sys.db.mailboxes, r' ∈ g.sys.db.mailboxes ∨ r'.updated = (g.step op).clock) ∧
+    g.clock ≤ (g.step op).clock ∧
+    (∀ r ∈ g.sys.db.mailboxes, ∀ r' ∈ (g.step op).sys.db.mailboxes, r'.id = r.id → r.updated ≤ r'.updated) := by
+  have hst : Chan.StampStep (g.opTime op) g.sys.db (g.sys.step op).db :=
+    Sys.step_stampStep hI.synced.1 op (by intro t e; simp [GSys.opTime, e])
+  have hclk : g.clock ≤ g.opTime op := GSys.clock_le_opTime hw.mono
+  refine ⟨hst, hclk, ?_⟩
+  intro r hr r' hr' e
+  rcases hst r' hr' with h | h
+  · have : r' = r := Chan.eq_of_pairwise_ne (f := MailboxRow.id) hI.cinv.mbIds h hr e
+    subst this; exact Int.le_refl _
+  · rw [h]; exact Int.le_trans (hI.clockMb r hr) hclk
+
+/-- a lower bound `t ≤ clock` on the stamps of the rows with id `mb` is kept by every step -/
+theorem C12_updated_lower_bound_step {g : GSys} (hI : g.GInv) {op : Op} (hw : g.WFOp op) {mb : String} {t : Time}
+    (ht : t ≤ g.clock) (hlb : ∀ r ∈ g.sys.db.mailboxes, r.id = mb → t ≤ r.updated) :
+    t ≤ (g.step op).clock ∧ ∀ r ∈ (g.step op).sys.db.mailboxes, r.id = mb → t ≤ r.updated := by
+  obtain ⟨h1, h2, _⟩ := C12_updated_mono hI hw
+  refine ⟨Int.le_trans ht h2, ?_⟩
+  intro r' hr' e
+  rcases h1 r' hr' with h | h
+  · exact hlb r' h e
+  · rw [h]; exact Int.le_trans ht h2
+
+/-- **C12_updated_lower_bound.**  Along any well-formed history (crashes, restarts, closes, sweeps,
+    re-creation of the mailbox — anything): if every row with id `mb` is stamped `≥ t` (and `t` is
+    not in the future), this is still so at the end. -/
+theorem C12_updated_lower_bound (ops : List Op) :
+    ∀ {g : GSys}, g.GInv → g.WF ops → ∀ {mb : String} {t : Time}, t ≤ g.clock →
+      (∀ r ∈ g.sys.db.mailboxes, r.id = mb → t ≤ r.updated) →
+      (g.run ops).GInv ∧ ∀ r ∈ (g.run ops).sys.db.mailboxes, r.id = mb → t ≤ r.updated := by
+  induction ops with
+  | nil => intro g hI _ mb t _ h; exact ⟨hI, h⟩
+  | cons op rest ih =>
+    intro g hI hwf mb t ht hlb
+    obtain ⟨h1, h2⟩ := C12_updated_lower_bound_step hI hwf.1 ht hlb
+    exact ih (hI.step op hwf.1) hwf.2 h1 h2
+
+/-- **C12_activity_survives.**  `g` = a state (satisfying the invariant) in which mailbox `(app, mb)`
+    has just been stamped `t` by a claim / allocate / open / add (`C12_activity_stamps_*` give
+    `Stamped`).  After ANY well-formed continuation `ops`, a sweep at a time `now` with
+    `now - t < expirationTicks` keeps every row with that id that is there when it fires, together with
+    its messages, side rows, nameplates and their side rows.  So no sweep within the expiration time
+    after the last activity removes the channel. -/
+theorem C12_activity_survives {g : GSys} (hI : g.GInv) {app mb : String} {t : Time}
+    (hst : g.sys.Stamped app mb t) (ops : List Op) (hwf : g.WF ops) (now : Time)
+    (hnow : now - t < expirationTicks) {r : MailboxRow} (hr : r ∈ (g.run ops).sys.db.mailboxes)
+    (hid : r.id = mb) :
+    (∃ r' ∈ ((g.run ops).step (.sweep now false)).sys.db.mailboxes,
+      r'.id = r.id ∧ r'.app = r.app ∧ r'.forNp = r.forNp) ∧
+    Chan.SameChannel (g.run ops).sys.db ((g.run ops).step (.sweep now false)).sys.db r := by
+  obtain ⟨⟨r0, hr0, e1, _, e3⟩, hall⟩ := hst
+  have ht : t ≤ g.clock := by rw [← e3]; exact hI.clockMb r0 hr0
+  obtain ⟨hI', hlb⟩ := C12_updated_lower_bound ops hI hwf (mb := mb) ht
+    (fun r hr e => by rw [hall r hr e]; exact Int.le_refl _)
+  obtain ⟨h1, h2, h3, _⟩ := C12_sweep_preserves hI' now hr (Or.inl (lower_bound_arith hnow (hlb r hr hid)))
+  refine ⟨?_, h3⟩
+  by_cases hs : (g.run ops).sys.Subscribed r
+  · exact ⟨_, h1 hs, rfl, rfl, rfl⟩
+  · exact ⟨r, h2 hs, rfl, rfl, rfl⟩
+
 /-! ## Non-vacuity: a concrete state with two apps, an old and a new mailbox with messages side by
     side, an idle one of another app and a subscribed one.  All times are expressed through
     `Generated.expirationTicks` / `periodTicks`, so the examples follow the constants. -/
@@ -719,6 +823,13 @@ example := C12_sweep_only_old g_ginv now
 example : g.sys.Old now rOld ∧ g.sys.Old now rIdle ∧ ¬ g.sys.Old now rNew ∧ ¬ g.sys.Old now rSub := by
   decide
 
+
+/-- `C12_prune_other_apps`: pruning app "A" of the example at `now` (cutoff `E < now`) -/
+example := C12_prune_other_apps (s := sys) (app := "A") (now := now) (old := now - E) (s1 := (sys.prune "A" now (now - E)).1)
+  (b := (sys.prune "A" now (now - E)).2) g_ginv.cinv (by decide) rfl (a := "B") (by decide)
+#guard decide (((sys.prune "A" now (now - E)).1.db.mailboxesOfApp "B" = sys.db.mailboxesOfApp "B") ∧
+  (sys.prune "A" now (now - E)).1.db.mailboxesOfApp "A" = [rNew])
+
 /-- `C12_connected_forever`: a faulted firing, an ordinary one and one a hundred expiration times later -/
 def sweeps : List Op := [.sweep now true, .sweep (now + P) false, .sweep (now + 100 * E) false]
 example : (∀ op ∈ sweeps, op.isFiring = true) ∧ conn7 ∈ g.sys.conns ∧ conn7.mailbox = some "sub" := by decide
@@ -737,9 +848,19 @@ example : (∀ op ∈ traffic, op.harmlessFor 7 = true) ∧ g.sys.Holds 7 "B" "s
 theorem traffic_wf : g.WF traffic := GSys.wfB_sound (by decide +kernel)
 example := C12_connected_mixed traffic g_ginv traffic_wf (c := 7) (app := "B") (mb := "sub") (by decide) (by decide)
 #guard decide ((g.run traffic).sys.Holds 7 "B" "sub")
--- ... and a close on another connection of the same side does end it (the excluded case)
+-- ... and the subscriber's own `close` does end it (the excluded case)
 #guard decide (¬ ((g.step (.recv 8 (E + 300) (.int 1) (.open_ (some "new")))).step
   (.recv 8 (E + 301) (.int 2) (.close (some "new") none))).sys.Holds 8 "A" "new")
+
+
+/-- `C12_updated_mono` / `C12_activity_survives`: "new" was stamped `E + 100`; after the traffic above
+    (sweeps, claims, opens, adds, a connection coming and going) its row is still stamped `≥ E + 100` -/
+example : g.WFOp (.recv 8 (E + 300) (.int 1) (.claim (some "7") "f1")) := GSys.wfOpB_sound (by decide +kernel)
+example := C12_updated_mono g_ginv (op := .recv 8 (E + 300) (.int 1) (.claim (some "7") "f1"))
+  (GSys.wfOpB_sound (by decide +kernel))
+example := fun r hr => C12_activity_survives g_ginv (app := "A") (mb := "new") (t := E + 100) (by decide)
+  [.connect 9, .sweep now true] (GSys.wfB_sound (by decide +kernel)) now (by decide) (r := r) hr
+#guard decide (∀ r ∈ (g.run traffic).sys.db.mailboxes, r.id = "new" → E + 100 ≤ r.updated)
 
 /-- `C12_survives_sweeps`: three firings before `rNew.updated + E` -/
 def early : List Op := [.sweep (E + 200) false, .sweep (E + 200 + P) true, .sweep (2 * E + 50) false]
@@ -795,11 +916,15 @@ end Wormhole
 #print axioms Wormhole.C12_sweep_preserves
 #print axioms Wormhole.C12_sweep_preserves_fault
 #print axioms Wormhole.C12_sweep_only_old
+#print axioms Wormhole.C12_prune_other_apps
 #print axioms Wormhole.C12_connected_forever
 #print axioms Wormhole.C12_connected_step
 #print axioms Wormhole.C12_connected_close_other
 #print axioms Wormhole.C12_connected_mixed
 #print axioms Wormhole.C12_connected_mixed_reach
+#print axioms Wormhole.C12_updated_mono
+#print axioms Wormhole.C12_updated_lower_bound
+#print axioms Wormhole.C12_activity_survives
 #print axioms Wormhole.C12_survives_sweeps
 #print axioms Wormhole.C12_grace_arith
 #print axioms Wormhole.C12_grace_window_pos
